@@ -12,6 +12,6 @@ CONSTANTS
     DropOnlyAtZero = TRUE
     DoneDuplicate = TRUE
 SPECIFICATION MonSpec
-INVARIANTS MonCountNonNegative MonHeldWhileCached MonHandlesMatchLayers MonOnlyOwnCached
-PROPERTIES UnknownDigestFails MonLookupSucceedsIffTocInImage MonSuccessMeansCached MonNeverDoneWhileUsed MonLastReleaseDropsBookkeeping MonNextLookupResolvesAgain
+INVARIANTS MonCountNonNegative MonHeldWhileCached MonHandlesMatchLayers MonOnlyOwnCached MonCountMatchesUses
+PROPERTIES UnknownDigestFails MonLookupSucceedsIffTocInImage MonSuccessMeansCached MonNeverDoneWhileUsed MonUsedLayerStays MonLastReleaseDropsBookkeeping MonNextLookupResolvesAgain
 CHECK_DEADLOCK FALSE
